@@ -778,6 +778,10 @@ class SymClient(Client):
         for p, d in zip(params[len(params) - len(defaults):], defaults):
             if p not in env:
                 env[p] = ast.unparse(d)
+            elif isinstance(d, ast.Constant) and d.value is None and env[p] != 'None' and self.repo.is_helper(fi):
+                # ``def f(x, status=None)`` called with the argument given: None is the "not given" marker of a new helper, the
+                # value passed explicitly is taken not to be None (the assumption the load-time inlining makes as well)
+                env['?nn:' + p] = '1'
         sub = SymClient(self.repo, fi, self.event_of, self._user_inline, self.hierarchy, self.raises_of,
                         self.depth + 1, self.branch_hook, self.store_event, self.field_event, self.bool_returns,
                         self.fresh_of, self.inline_generators)
@@ -1067,6 +1071,8 @@ class SymClient(Client):
                 (outs_t if lit else outs_f).append(s1)
                 continue
             dec = _decide_none_test(test, self, s1)
+            if dec is None:
+                dec = self._decide_hasattr(v)
             if dec is True:
                 outs_t.append(s1)
                 continue
@@ -1092,6 +1098,34 @@ class SymClient(Client):
             outs_t.extend(tt)
             outs_f.extend(ff)
         return outs_t, outs_f
+
+    def _decide_hasattr(self, term: str) -> Optional[bool]:
+        """``hasattr(<a class of the package>, 'name')``: decided from the class and its bases (when all of them are the
+        package's own or ``object``)"""
+        if not term.startswith('hasattr('):
+            return None
+        try:
+            e = ast.parse(term, mode='eval').body
+        except SyntaxError:
+            return None
+        if not (isinstance(e, ast.Call) and len(e.args) == 2 and not e.keywords and isinstance(e.args[1], ast.Constant)
+                and isinstance(e.args[1].value, str)):
+            return None
+        k = None
+        a0 = e.args[0]
+        if isinstance(a0, ast.Name):
+            k = self._find_class(a0.id)
+        elif isinstance(a0, ast.Attribute) and isinstance(a0.value, ast.Name) and a0.value.id in self.repo.modules:
+            k = self.repo.modules[a0.value.id].classes.get(a0.attr)
+        if k is None:
+            return None
+        name = e.args[1].value
+        for b in k.mro():
+            if name in b.attrs or name in b.methods or name in b.setters:
+                return True
+        if all(x in ('object',) for x in k.all_ext_bases()):
+            return False
+        return None
 
     def _split_truth(self, txt: str, s: SymState):
         """the truth of an already evaluated value, as path conditions over its atoms: a boolean that reached the test
@@ -1335,6 +1369,9 @@ def _decide_none_test(test: ast.expr, client: 'SymClient', s: SymState) -> Optio
     positive = isinstance(test.ops[0], (ast.Is, ast.Eq))
     if t == 'None':
         return positive
+    if s.get('?nn:' + other.id) == '1' and not any(
+            isinstance(n_, ast.Name) and n_.id == other.id and isinstance(n_.ctx, (ast.Store, ast.Del)) for n_ in ast.walk(client.f.node)):
+        return not positive
     if _never_none(t):
         return not positive
     # an attribute of that very value was read on this path (``x.name in ...`` held or failed): it is not None
